@@ -20,6 +20,10 @@ QUERIES = [
 for L in range(0, 81):
     QUERIES.append(q("ecdsa_der_parse_len%02d" % L, "harness_ecdsa_sig", "ecdsa_signature_parse_der on a separate input object of exactly %d bytes (all byte values): no read past the end; parsed signature handed to normalize / serialize" % L,
                      defs=["DERONLY", "DERLEN=%d" % L], bounds="len = %d" % L, tier="quick" if (L <= 10 or L in (35, 36, 70, 71, 72, 73)) else "thorough", timeout=900, mem_gb=4))
+for m, tier in ((0, "quick"), (1, "quick")):     # classes 2, 3, 8: symbolic execution ran out of memory at 12 GB (4 kB pad indexed by value-dependent positions)
+    QUERIES.append(Query("rewind_inner_m%d" % m, "C07/h_rewind.c", "harness_rewind_inner", defs=["MANT=%d" % m], unwind=140, timeout=1800, mem_gb=12, tier=tier,
+                         desc="rangeproof_rewind_inner, ring layout of mantissa class %d: message copied into a caller buffer of EXACTLY *mlen bytes (every *mlen, NULL buffer / NULL length allowed), indices into s/ev/pad in bounds, reported length <= offered length, for all ring scalars, challenges and re-derived randomness" % m,
+                         bounds="mantissa class %d; *mlen 0..128*rings+8" % m))
 for qq in QUERIES:
     qq.unreachable = UNREACH
 # entry points with large inputs are decided per size class by the harnesses of the property that owns the format, with all of CBMC's
@@ -45,9 +49,9 @@ for pid, sel in _take.items():
 LEVEL_TEXT = ("Bounded model checking of every parsing / verification entry point on input objects of exactly the declared (symbolic) length with all of CBMC's memory-safety and undefined-behaviour checks, counting callbacks, "
               "consumer calls on successfully parsed objects and leak checking with failing allocation; large formats (range proof, whitelist, surjection proof, norm argument) per size class.")
 ASSUMPTIONS = ["multiplicative kernels, scalar multiplication routines and SHA-256 return arbitrary values of the right type (their own termination / UB is not examined)",
-               "lengths bounded as listed per query; range-proof verifier per mantissa class (0,1,3,8 quick; 32,64 thorough) with an exact-size proof buffer; rewind not covered",
+               "lengths bounded as listed per query; range-proof verifier per mantissa class (0,1,3,8 quick; 32,64 thorough) with an exact-size proof buffer; rewind_inner for mantissa classes 0 and 1 only (larger ring layouts ran out of memory)",
                "recovery id argument in its documented range 0..3; public key / cache objects handed in by the caller are library-produced (canonical)", "64-bit limbs only"]
 MANIFEST_ENTRY = {
     "text": "Bounded model checking (CBMC bounds/pointer/overflow/shift checks, unwinding assertions, counting callbacks, --memory-leak-check with failing malloc) of the parsing and verification entry points on heap input objects of EXACTLY the declared symbolic length: pubkey, x-only, DER/compact/recoverable signatures, Schnorr messages, MuSig nonces/partial signatures, adaptor signatures, half-aggregates, ElligatorSwift, commitments/generators, whitelist signatures, BP++ generator lists, s2c openings, plus per-class range-proof / whitelist / norm-argument verifier queries; parsed objects are handed to the consumers of their type.",
-    "note": "Kernels opaque (their internal UB/termination not examined); input lengths bounded per query (<= 72..137 bytes for the small formats; range proofs per mantissa class); rangeproof_rewind and surjection proofs beyond C11's parse classes not covered; compiled-code behaviour (sanitizers) not observed - C semantics only.",
+    "note": "Kernels opaque (their internal UB/termination not examined); input lengths bounded per query (<= 72..137 bytes for the small formats; range proofs per mantissa class); rangeproof_rewind covered only at its inner function for the two smallest ring layouts; surjection proofs beyond C11's parse classes not covered; compiled-code behaviour (sanitizers) not observed - C semantics only.",
 }
